@@ -9,14 +9,14 @@ NO_OVF = [c for c in DEFAULT_CHECKS if c != '--signed-overflow-check'] + ['--no-
 STEP_RULES = [
     # the while condition and locals of Xml::decode become parameters / ghost state of the step
     (r'elems\.push\(Xml\(b\)\);', 'XE_PUSH();', None),
-    (r'Xml e = elems\.popget\(\);\s*elems\.top\(\) << e;', 'XE_POPGET(); XE_TOP_APPEND_XML();', None),
-    (r'elems\.top\(\) << XmlText\(b\);', 'XE_TOP_APPEND_XML();', None), (r'elems\.top\(\) << b;', 'XE_TOP_APPEND_STRING();', None), (r'elems\.top\(\)\.setAttr\(atname, b\);', 'XE_TOP_USE();', None),
+    (r'Xml e = elems\.popget\(\);\s*elems\.top\(\) << e;', 'XE_POPGET(); XE_TOP_APPEND_XML(1);', None),
+    (r'elems\.top\(\) << XmlText\(b\);', 'XE_TOP_APPEND_XML(0);', None), (r'elems\.top\(\) << b;', 'XE_TOP_APPEND_STRING();', None), (r'elems\.top\(\)\.setAttr\(atname, b\);', 'XE_TOP_USE();', None),
     (r'b != elems\.top\(\)\.tag\(\)', 'XE_TOP_TAG_DIFFERS()', None), (r'elems\.length\(\)', 'g_ed', None),
     (r'return Xml\(\);', '{ g_null = 1; return; }', None),
-    (r'for \(int i = 0; i < b\.length\(\); i\+\+\)\s*if \(b\[i\] != \' \' && b\[i\] != \'\\n\' && b\[i\] != \'\\r\' && b\[i\] != \'\\t\'\) \{\s*(XE_TOP_APPEND_\w+\(\);)\s*break;\s*\}', r'if (nondet_bool()) \1', None),
+    (r'for \(int i = 0; i < b\.length\(\); i\+\+\)\s*if \(b\[i\] != \' \' && b\[i\] != \'\\n\' && b\[i\] != \'\\r\' && b\[i\] != \'\\t\'\) \{\s*(XE_TOP_APPEND_\w+\(\d?\);)\s*break;\s*\}', r'if (nondet_bool()) \1', None),
     (r'int code = \(ref\[1\] == \'x\'\) \? \(int\)ref\.substring\(2\)\.hexToInt\(\) : \(int\)ref\.substring\(1\);', 'int code = REF_CODE();', None),
     (r'b << entities\.get\(ref, \'\?\'\);', 'B_APPEND(REF_ENTITY());', None), (r'b << bytes;', 'B_APPEND_STR(bytes);', None),
-    (r'\*\(p - 2\)', 'g_prev', None), (r'myisalpha\(b\[0\]\)', 'myisalpha(g_b0)', None), (r'b\.length\(\)', 'g_blen', None),
+    (r'\*\(p - 2\)', 'g_prev', None), (r'myisalpha\(b\[0\]\)', 'myisalpha(g_b0)', None), (r'b\.length\(\)', 'g_blen', None), (r'\bb\[([^\]]+)\]', r'B_AT(\1)', None),   # any other index into the token buffer
     (r'atname = b;', ';', None), (r'\bb = "";', 'B_CLEAR();', None), (r'\bb = c;', '{ B_CLEAR(); B_APPEND(c); }', None), (r'\bb << c;', 'B_APPEND(c);', None),
     (r'ref\[0\]', 'g_ref[0]', None), (r'\bref = c;', '{ g_reflen = 0; REF_APPEND(c); }', None), (r'\bref << c;', 'REF_APPEND(c);', None), (r'\bref = "";', 'g_reflen = 0;', None),
     (r'(?<![\w.>])state\b', 'XS->state', None), (r'(?<![\w.>])lastState\b', 'XS->lastState', None), (r'\banglecount\b', 'XS->anglecount', None),
@@ -26,7 +26,7 @@ XH = 'include/asl/Xml.h'
 # what the two overloads of Xml::operator<< do to the child list and to the child's parent link (counted: g_children / g_parented), from their real bodies
 def append_cuts():
     link = [(r'(\w+)\._\(\)->parent = _\(\);', 'g_parented++;', None), (r'(\w+)->parent = [^;]*;', 'g_parented++;', None), (r'return \*this;', 'return;', None)]
-    return [Cut('append_xml', XH, r'^\tXml& operator<<\(const Xml& e\)\s*$', rules=[(r'_\(\)->children << e;', 'g_children++;', 1)] + link),
+    return [Cut('append_xml', XH, r'^\tXml& operator<<\(const Xml& e\)\s*$', rules=[(r'_\(\)->children << e;', 'g_children++;', 1), (r'\bif\s*\(\s*e\s*\)', 'if (vf_e_is_element)', None), (r'\bif\s*\(\s*!e\s*\)', 'if (!vf_e_is_element)', None)] + link),
             Cut('append_string', XM, r'^Xml& Xml::operator<<\(const String& t\)\s*$',
                 rules=[(r'_Xml\* e = _\(\);', '', 1), (r'e->children\.length\(\) > 0 && e->children\.last\(\)\.isText\(\)', 'nondet_bool()', 1),
                        (r'e->children\.last\(\)\.as<XmlText>\(\)\.append\(t\);', ';', 1), (r'e->children << XmlText\(t\);', 'g_children++;   /* a new text node appended to the Array of children */', 1)] + link)]
@@ -55,13 +55,16 @@ static void XE_PUSH(void) { g_ed++; }
 static void XE_POPGET(void) { __CPROVER_assert(g_ed >= 1, "Stack::popget on an empty element stack"); g_ed--; }
 static void XE_TOP_USE(void) { __CPROVER_assert(g_ed >= 1, "Stack::top on an empty element stack"); }
 int g_children, g_parented;     /* children added to some element / parent links set, in this step */
-static void Xml_append_xml(void) @@append_xml@@
+/* Xml::operator bool: the node is not null AND has a tag - true for elements, false for text nodes (their tag is empty) */
+static void Xml_append_xml(bool vf_e_is_element) @@append_xml@@
 static void Xml_append_string(void) @@append_string@@
-static void XE_TOP_APPEND_XML(void) { XE_TOP_USE(); Xml_append_xml(); }          /* elems.top() << <an Xml> */
+static void XE_TOP_APPEND_XML(int is_element) { XE_TOP_USE(); Xml_append_xml(is_element != 0); }          /* elems.top() << <an Xml> */
 static void XE_TOP_APPEND_STRING(void) { XE_TOP_USE(); Xml_append_string(); }    /* elems.top() << <a String> */
 /* b != elems.top().tag(): the root's tag is empty, every other tag is not; equal lengths may or may not mean equal text */
 static bool XE_TOP_TAG_DIFFERS(void) { __CPROVER_assert(g_ed >= 1, "Stack::top on an empty element stack"); if (g_ed == 1) return g_blen != 0; if (g_blen == 0) return true; return nondet_bool(); }
 static void B_CLEAR(void) { g_blen = 0; }
+/* b[i]: String::operator[] needs 0 <= i <= length; first and last characters are tracked, the others are arbitrary */
+static char B_AT(int i) { __CPROVER_assert(0 <= i && i <= g_blen, "String::operator[] index within the length of the token buffer"); return i == g_blen ? (char)0 : i == 0 ? g_b0 : i == g_blen - 1 ? g_blast : nondet_char(); }
 static void B_APPEND(char c) { if (g_blen == 0) g_b0 = c; g_blast = c; g_blen++; }
 static void B_APPEND_STR(const char* s) { for (int i = 0; i < 5 && s[i]; i++) B_APPEND(s[i]); }
 static void REF_APPEND(char c) { if (g_reflen < 4) g_ref[g_reflen] = c; g_reflen++; }
